@@ -203,6 +203,16 @@ type TagMix struct {
 	S16 int16  `parquet:"s16,int(64)"`
 	U16 uint16 `parquet:"u16,uint(64)"`
 	OS8 int8   `parquet:"os8,optional,int(64)"`
+	OU  string `parquet:"ou,uuid,optional"`
+}
+
+// ByteList: a slice of bytes that the list tag turns into a LIST of 8-bit
+// integers, next to one that stays a byte array.
+type ByteList struct {
+	ID int64   `parquet:"id"`
+	N  []uint8 `parquet:"n,list"`
+	B  []byte  `parquet:"b"`
+	O  []uint8 `parquet:"o,list,optional"`
 }
 
 // PtrTag: a field written through the value-level writer (the text of a UUID)
@@ -796,4 +806,5 @@ func init() {
 	register[TagMix]("TagMix")
 	register[OptElems]("OptElems")
 	register[PtrTag]("PtrTag")
+	register[ByteList]("ByteList")
 }
